@@ -1076,6 +1076,172 @@ fn placement_twins<H: ArchH>(rep: &mut Report, p: &mut Prng, id: u64) {
     let _ = id;
 }
 
+/// Direct oracles for C13 and C12 that need no model: FDEs with one row each whose CFA offsets
+/// are pairwise different (so the answer shows which FDE was consulted), adjacent or separated,
+/// split over one or two adjacent modules, boundaries on and off page boundaries, tables on both
+/// sides of 16 entries; written in all three presentations. Every boundary is probed as pc and
+/// as return address; the expected answer is computed here from the row of the FDE that
+/// contains the lookup address (pc: the address; return address: the address minus one).
+fn boundary_scenarios<H: ArchH>(rep: &mut Report, p: &mut Prng, _id: u64) {
+    let arch = H::ARCH;
+    let n = *p.pick(&[2usize, 3, 5, 8, 15, 16, 17, 24]);
+    let base_svma: u64 = *p.pick(&[0u64, 0x1000, 0x40_0000]);
+    let base_avma: u64 = *p.pick(&[0x40_0000u64, 0x5555_5555_0000, 0x7f00_0000_0000]);
+    let text_off: u64 = *p.pick(&[0x1000u64, 0x2000, 0x1f00]);
+    let mut fdes: Vec<FdeSpec> = Vec::new();
+    let mut cur = base_svma + text_off;
+    for i in 0..n {
+        let len = match p.below(5) {
+            0 => 1,
+            1 => 0x10 + p.below(0x40),
+            // end exactly on a page boundary
+            2 | 3 => 0x1000 - (cur % 0x1000),
+            _ => 0x100 + p.below(0x200),
+        };
+        let k = match arch {
+            Arch::X64 => 8 * (i as i64 % 30 + 2),
+            Arch::A64 => 16 * (i as i64 % 30 + 1),
+        };
+        let row = match arch {
+            Arch::X64 => RowSpec { cfa: Cfa::RegOff(DReg::Sp, k), fp: RR::Same, ra: RR::Offset(-8) },
+            Arch::A64 => RowSpec { cfa: Cfa::RegOff(DReg::Sp, k), fp: RR::Offset(-16), ra: RR::Offset(-8) },
+        };
+        fdes.push(FdeSpec { start: cur, len, rows: vec![(0, row)], eval_fails: false, pac: false });
+        cur += len;
+        if p.chance(1, 4) {
+            cur += 1 + p.below(0x30);
+        }
+    }
+    let end = cur;
+    // one module, or two adjacent modules split at an FDE start
+    let split = if n >= 3 && p.chance(1, 2) { Some(1 + p.below(n as u64 - 1) as usize) } else { None };
+    let to_avma = |svma: u64| svma - base_svma + base_avma;
+    let row_k = |f: &FdeSpec| match f.rows[0].1.cfa { Cfa::RegOff(_, k) => k as u64, _ => 0 };
+    let expect = |lookup_avma: u64, regs: &RegsAny, mem: &crate::mem::MemDesc| -> Option<String> {
+        let svma = lookup_avma - base_avma + base_svma;
+        let f = fdes.iter().find(|f| f.start <= svma && svma - f.start < f.len)?;
+        let k = row_k(f);
+        Some(match regs {
+            RegsAny::X(r) => {
+                let cfa = r.sp() + k;
+                let ra = mem.read(cfa - 8).ok()?;
+                let mut after = r.clone();
+                after.ip = ra;
+                after.r[7] = cfa;
+                format!("frame:{} {}", hex(ra), RegsAny::X(after).show())
+            }
+            RegsAny::A(r) => {
+                let cfa = r.sp + k;
+                let lr = mem.read(cfa - 8).ok()? & r.mask;
+                let fp = mem.read(cfa - 16).ok()?;
+                let after = crate::rules::RegsA { mask: r.mask, lr, sp: cfa, fp };
+                format!("frame:{} {}", hex(lr), RegsAny::A(after).show())
+            }
+        })
+    };
+    // probes
+    let mut probes: Vec<(u64, bool)> = Vec::new();
+    for f in &fdes {
+        let a = to_avma(f.start);
+        let e = to_avma(f.start + f.len);
+        probes.extend_from_slice(&[(a, false), (a, true), (a + 1, true), (e, true), (e - 1, false)]);
+        if a > base_avma + text_off {
+            probes.push((a - 1, false));
+        }
+    }
+    let mut answers: Vec<Vec<String>> = Vec::new();
+    let mut lines_per: Vec<Vec<String>> = Vec::new();
+    let mut order: Vec<usize> = (0..n).collect();
+    for i in (1..n).rev() {
+        order.swap(i, p.below(i as u64 + 1) as usize);
+    }
+    let enc = *p.pick(&[PtrEnc::Abs8, PtrEnc::PcRel4, PtrEnc::PcRel8]);
+    let n_cies = 1 + p.below(3) as u8;
+    let sp0 = 0x7ffc_0000_1000u64;
+    let mem = crate::mem::MemDesc::new(crate::mem::Dflt::Plus(0x1111_0000));
+    for pres in [Pres::Hdr, Pres::Idx, Pres::Dbg] {
+        let mk = |lo: usize, hi: usize| -> ModSpec {
+            let mut fs: Vec<FdeSpec> = order.iter().filter(|i| **i >= lo && **i < hi).map(|i| fdes[*i].clone()).collect();
+            if fs.is_empty() {
+                fs.push(fdes[lo].clone());
+            }
+            let start = to_avma(fdes[lo].start);
+            let stop = if hi == n { to_avma(end) } else { to_avma(fdes[hi].start) };
+            ModSpec { start, end: stop, base_avma, base_svma, data: DataSpec::Dwarf(pres, fs), enc, hdr_abs: true, dbg_version: 4, n_cies }
+        };
+        let mods: Vec<ModSpec> = match split {
+            Some(k) => vec![mk(0, k), mk(k, n)],
+            None => vec![mk(0, n)],
+        };
+        let mut w: World<H> = World::new();
+        let mut lines = vec![w.init_line(0, cache_entry_count())];
+        let mut ops = vec![Op::New { u: "u0".into() }, Op::NewCache { c: "c0".into() }];
+        for (i, m) in mods.iter().enumerate() {
+            ops.push(Op::Mod { m: format!("m{i}"), spec: m.clone() });
+            ops.push(Op::Add { u: "u0".into(), m: format!("m{i}") });
+        }
+        for o in ops {
+            lines.push(o.line(lines.len() as u64));
+            w.exec(&o);
+        }
+        let mut ans = Vec::new();
+        for (j, (addr, is_ra)) in probes.iter().enumerate() {
+            let sp = sp0 + 16 * (j as u64 % 8);
+            let regs = match arch {
+                Arch::X64 => {
+                    let mut r = [0u64; 16];
+                    r[7] = sp;
+                    r[6] = sp + 0x800;
+                    RegsAny::X(crate::rules::RegsX { ip: *addr, r })
+                }
+                Arch::A64 => RegsAny::A(crate::rules::RegsA { mask: u64::MAX, lr: 0x5555_0000_1000, sp, fp: sp + 0x800 }),
+            };
+            let o = Op::Unwind { u: "u0".into(), c: "c0".into(), is_ra: *is_ra, addr: *addr, regs, mem: mem.clone() };
+            lines.push(o.line(lines.len() as u64));
+            let (a, _) = w.exec(&o);
+            ans.push(a.split(' ').filter(|t| !t.starts_with("stats=") && !t.starts_with("t=")).collect::<Vec<_>>().join(" "));
+        }
+        answers.push(ans);
+        lines_per.push(lines);
+    }
+    for (j, (addr, is_ra)) in probes.iter().enumerate() {
+        let sp = sp0 + 16 * (j as u64 % 8);
+        let regs = match arch {
+            Arch::X64 => {
+                let mut r = [0u64; 16];
+                r[7] = sp;
+                r[6] = sp + 0x800;
+                RegsAny::X(crate::rules::RegsX { ip: *addr, r })
+            }
+            Arch::A64 => RegsAny::A(crate::rules::RegsA { mask: u64::MAX, lr: 0x5555_0000_1000, sp, fp: sp + 0x800 }),
+        };
+        let lookup = if *is_ra { addr - 1 } else { *addr };
+        let Some(want) = expect(lookup, &regs, &mem) else { continue };
+        rep.count(&format!("{} boundary probes judged ({})", arch.name(), if *is_ra { "return address" } else { "pc" }));
+        let differ = answers.iter().any(|a| a[j] != answers[0][j]);
+        for (pi, pres) in ["eh_frame_hdr", "eh_frame", "debug_frame"].iter().enumerate() {
+            let got = &answers[pi][j];
+            if *got == want {
+                continue;
+            }
+            // which property: the return address looked up without the minus one?
+            let unshifted = if *is_ra { expect(*addr, &regs, &mem) } else { None };
+            let (props, key): (&[&str], String) = if unshifted.as_deref() == Some(got.as_str()) {
+                (&["C13"], "return-address-looked-up-without-minus-one".into())
+            } else if differ {
+                (&["C12"], format!("presentation-{pres}-consults-another-fde"))
+            } else {
+                (&["C01"], "lookup-consults-another-fde".into())
+            };
+            let upto = lines_per[pi].len() - (probes.len() - 1 - j);
+            add_oracle(rep, props, &key,
+                format!("{} {:#x}: the FDE containing the lookup address {:#x} prescribes {want} ({pres} presentation, {} FDEs{})", if *is_ra { "return address" } else { "pc" }, addr, lookup, n, if split.is_some() { ", two adjacent modules" } else { "" }),
+                lines_per[pi][..upto].join("\n"), got);
+            break;
+        }
+    }
+}
+
 pub fn run(tier: &str, seed: u64) -> Report {
     let mut rep = Report::new("hist");
     let mut p = Prng::new(seed.wrapping_mul(0x1234_5678_9abc_def1).wrapping_add(7));
@@ -1084,6 +1250,13 @@ pub fn run(tier: &str, seed: u64) -> Report {
     for i in 0..n_hist {
         let arch = if i % 2 == 0 { Arch::X64 } else { Arch::A64 };
         let len = 10 + p.below(n_ops as u64) as usize;
+        if i % 16 == 3 || i % 16 == 10 {
+            match arch {
+                Arch::X64 => boundary_scenarios::<X64H<MayAllocateDuringUnwind>>(&mut rep, &mut p, i),
+                Arch::A64 => boundary_scenarios::<A64H<MayAllocateDuringUnwind>>(&mut rep, &mut p, i),
+            }
+            continue;
+        }
         if i % 16 == 9 || i % 16 == 12 {
             match arch {
                 Arch::X64 => placement_twins::<X64H<MayAllocateDuringUnwind>>(&mut rep, &mut p, i),
